@@ -397,6 +397,10 @@ impl Check for C15 {
         if sc.meta.len() != sc.net.clients.len() || sc.net.stop_at_ns.is_some() || sc.net.cfg.timeout_ns < secs(2) || (sc.net.cfg.timeout_ns < secs(30) && sc.net.clients.iter().any(|c| !c.spec.cuts.is_empty())) {
             return RunReport::default();
         }
+        // the run must go on long enough for every (possibly trickling) header and exchange to end
+        if sc.net.cap_ns < sc.net.clients.iter().map(|c| c.connect_at_ns).max().unwrap_or(0) + secs(45) {
+            return RunReport::default();
+        }
         if sc.net.cfg.limiter.is_some_and(|(d, _)| d == 0) {
             return RunReport::default();
         }
